@@ -327,11 +327,11 @@ example : applyFees 64 (10 ^ 9) ⟨5 * 10 ^ 7, 5 * 10 ^ 7, 37 * 10 ^ 7, 0⟩ .im
 /-- **position fees are split exactly**: whenever the three aggregates are defined, what goes to the pool plus
 what goes to the fee receiver is exactly what the position is charged (excluding funding) — order, borrowing
 and liquidation fees together; nothing is created or lost -/
-theorem posFees_split_exact {W : Nat} {f : PosFees} {p r t : Nat}
+theorem feeAgg_split_exact {W : Nat} {f : FeeAgg} {p r t : Nat}
     (hp : f.forPool W = some p) (hr : f.forReceiver W = some r) (ht : f.totalCost W = some t) : p + r = t := by
-  unfold PosFees.forPool poolPart checkedSub checkedAdd toU at hp
-  unfold PosFees.forReceiver checkedAdd toU at hr
-  unfold PosFees.totalCost checkedAdd toU at ht
+  unfold FeeAgg.forPool poolPart checkedSub checkedAdd toU at hp
+  unfold FeeAgg.forReceiver checkedAdd toU at hr
+  unfold FeeAgg.totalCost checkedAdd toU at ht
   cases hl : f.liq with
   | none =>
     simp only [hl] at hp hr ht
@@ -359,8 +359,8 @@ theorem posFees_split_exact {W : Nat} {f : PosFees} {p r t : Nat}
     all_goals simp_all
     all_goals omega
 
-example : (⟨100, 40, 30, 10, some (20, 7)⟩ : PosFees).forPool 64 = some 133 ∧
-    (⟨100, 40, 30, 10, some (20, 7)⟩ : PosFees).forReceiver 64 = some 57 ∧
-    (⟨100, 40, 30, 10, some (20, 7)⟩ : PosFees).totalCost 64 = some 190 := by decide
+example : (⟨100, 40, 30, 10, some (20, 7)⟩ : FeeAgg).forPool 64 = some 133 ∧
+    (⟨100, 40, 30, 10, some (20, 7)⟩ : FeeAgg).forReceiver 64 = some 57 ∧
+    (⟨100, 40, 30, 10, some (20, 7)⟩ : FeeAgg).totalCost 64 = some 190 := by decide
 
 end Gmx.C02
